@@ -27,9 +27,10 @@ const c02Dom = int64(1) << 36
 // extension none / v1 / v2, country "" / "XX". Percent values are symbolic (one decimal, 0.0 % .. 100.0 %).
 func c02Combo(name string, cat cbc.Code, rich bool) *Combo {
 	c := &Combo{Category: cat}
-	if name == "l0.a" && !vrt.Thorough() {
-		// quick tier: the first line's combo is the fixed reference row (21 %, extension v1, optional surcharge);
-		// the second line's combo ranges over every attribute combination relative to it
+	if name == "l0.a" {
+		// the first line's combo is the fixed reference row (21 %, extension v1, optional surcharge);
+		// the second line's combo ranges over every attribute combination relative to it (and in the thorough
+		// tier a third line over a smaller set of combinations)
 		p := num.MakePercentage(210, 3)
 		c.Percent = &p
 		c.Ext = Extensions{"k": "v1"}
@@ -159,7 +160,10 @@ func H_C02_Partition() {
 		}
 		total := num.MakeAmount(vrt.Int64In(name+".total", -c02Dom, c02Dom), texp)
 		l := &c02Line{total: total}
-		ca := c02Combo(name+".a", "A", true)
+		ca := c02Combo(name+".a", "A", k < 2) // a third line (thorough) has no extension / country variety
+		if k >= 2 && ca.retained {
+			ca.retained = false // (a non-rich combo of category A is an ordinary one)
+		}
 		l.taxes = append(l.taxes, ca)
 		var cb *Combo
 		if (k > 0 || vrt.Thorough()) && vrt.Choice(name+".second", 2) == 1 {
